@@ -414,3 +414,5 @@ def run(ctx):
     r3(ctx, fs)
     r4(ctx, fs)
     r5(ctx, fs)
+    from .C17 import item_eq_tables
+    item_eq_tables(ctx, 'C13.R5', fs)       # `==` / `!=` of RIDDLE boolean expressions reach sat_core::new_eq through bool_item::new_eq
